@@ -145,11 +145,11 @@ def run_check(prop, tier, seed):
         res = engine.execute(spec)
         sigs = [v["signature"] for v in res.get("violations", [])]
         if entry["status"] == "known":
-            if entry["signature"] in sigs:
+            if any(batch.sig_matches(entry["signature"], s) for s in sigs):
                 known_lines.append(f"KNOWN-FINDING: property={prop} {entry['text']}")
             else:
                 notes.append(f"known finding no longer reproduces on its replay: {entry['text']}")
-            others = [s for s in sigs if s != entry["signature"]]
+            others = [s for s in sigs if batch.match_known(known, s) is None]
             if others:
                 violation_lines.append(f"VIOLATION property={prop} replay={path}")
         elif entry["status"] == "fixed":
